@@ -3,12 +3,15 @@
 package dtls
 
 import (
+	"context"
 	"fmt"
+	"sync/atomic"
 	"testing"
 	"testing/synctest"
 	"time"
 
 	dtlsstate "github.com/pion/dtls/v3/internal/state"
+	"github.com/pion/dtls/v3/pkg/protocol"
 	"github.com/pion/transport/v4/replaydetector"
 )
 
@@ -178,6 +181,10 @@ func c06Variant(name string, w int) (*dtlsConfig, *dtlsConfig) {
 		s.ConnectionIDGenerator = RandomCIDGenerator(6)
 	case "cert-gcm":
 		c, s = vCertPair()
+	case "v13", "v13-ku":
+		c, s = vCertPair()
+		c.MinVersion, c.MaxVersion = protocol.Version1_3, protocol.Version1_3
+		s.MinVersion, s.MaxVersion = protocol.Version1_3, protocol.Version1_3
 	default:
 		panic("variant " + name)
 	}
@@ -209,6 +216,52 @@ func runC06Script(t *testing.T, variant string, w, n int, script []int) c06E2ECa
 	for i := range payloads {
 		payloads[i] = []byte(fmt.Sprintf("payload-%04d", i))
 	}
+	if variant == "v13" || variant == "v13-ku" {
+		// DTLS 1.3: the sequence number on the wire is encrypted; take each record's number from the
+		// sender's counter (one record per Write), and everything below the first as already accepted
+		common := dtlsstate.CommonState(lab.Server.Conn.state)
+		epoch := common.LocalEpoch()
+		first := atomic.LoadUint64(&common.LocalSequenceNumber[epoch])
+		res.Pre = nil
+		for q := uint64(0); q < first; q++ {
+			res.Pre = append(res.Pre, q)
+		}
+		var caps13 []vDatagram
+		for i := range payloads {
+			if variant == "v13-ku" && i > 0 && i == len(payloads)/2 {
+				// the server updates its keys between the two halves: let that exchange through
+				done := make(chan error, 1)
+				go func() { done <- lab.Server.Conn.UpdateKeys(context.Background(), KeyUpdateOptions{}) }()
+				lab.Pump.next = lab.Net.count()
+				lab.Pump.run(func() bool {
+					select {
+					case err := <-done:
+						done <- err
+
+						return true
+					default:
+						return false
+					}
+				}, 30*time.Second)
+				if err := <-done; err != nil {
+					t.Fatalf("UpdateKeys: %v", err)
+				}
+				epoch = common.LocalEpoch()
+			}
+			q := uint64(0)
+			if int(epoch) < len(common.LocalSequenceNumber) {
+				q = atomic.LoadUint64(&common.LocalSequenceNumber[epoch])
+			}
+			d := vCapture(lab, "server", payloads[i:i+1])
+			if len(d) != 1 {
+				t.Fatalf("expected one datagram per write, got %d", len(d))
+			}
+			caps13 = append(caps13, d[0])
+			res.Seqs = append(res.Seqs, q)
+			res.Epochs = append(res.Epochs, int(epoch))
+		}
+		return c06Deliver(lab, res, caps13, payloads, script)
+	}
 	caps := vCapture(lab, "server", payloads)
 	if len(caps) != n {
 		t.Fatalf("captured %d datagrams for %d writes", len(caps), n)
@@ -221,6 +274,11 @@ func runC06Script(t *testing.T, variant string, w, n int, script []int) c06E2ECa
 		res.Seqs = append(res.Seqs, rs[0].Seq)
 		res.Epochs = append(res.Epochs, rs[0].Epoch)
 	}
+
+	return c06Deliver(lab, res, caps, payloads, script)
+}
+
+func c06Deliver(lab *vLab, res c06E2ECase, caps []vDatagram, payloads [][]byte, script []int) c06E2ECase {
 	lab.Client.startReader()
 	synctest.Wait()
 	before := lab.Net.count()
@@ -279,7 +337,7 @@ func TestVerifC06E2E(t *testing.T) {
 			jobs = append(jobs, job{"psk-gcm", 2, 3, sc})
 		}
 	}
-	variants := []string{"psk-gcm", "psk-ccm8", "psk-cbc", "psk-gcm-cid", "cert-gcm"}
+	variants := []string{"psk-gcm", "psk-ccm8", "psk-cbc", "psk-gcm-cid", "cert-gcm", "v13", "v13-ku", "v13-ku"}
 	nRandom := 60
 	if vIsThorough() {
 		nRandom = 3000
